@@ -12,8 +12,8 @@ import (
 )
 
 func init() {
-	register("C12", "Query formatting: (R1) every syntactic field the parser writes on an executable node (operations, variable definitions, fields, spreads, inline fragments, fragment definitions, arguments, directives, values, types) is read by the formatter's code (positions, comments and validation links excepted); (R2) string values are written only through a quoting function whose escape alphabet is a subset of what the lexer decodes — the Go-syntax strconv.Quote family (\\a \\v \\x \\U) is not, and raw or block-string emission of a value is not escape-complete; (R3) every branch of the formatter that decides whether a parsed piece is printed tests only presence (nil / empty), formatter options, built-in flags, the node's own kind, or loop bounds — a test on the content of a child (its kind, its name) drops or changes pieces of some documents; (R4) FormatSelection and Value.String are exhaustive over their kinds. (R6) a leading comment group is printed before any of the node's text; (R7) a write primitive hands the text it is given to the writer on every path (empty string and options excepted).", runC12)
-	register("C13", "Schema formatting: (R1) every syntactic field the parser writes on a type-system node, and every field ValidateSchemaDocument writes on ast.Schema, is read by the formatter (positions, comments, BuiltIn and derived relations excepted); (R2) the shared string writer of C12.R2 (default values, directive arguments); (R3) the text written between block-string delimiters passes a replacement of the delimiter by its escape; (R4) the guard discipline of C12.R3 over the schema printers (suppression only by BuiltIn flags, the introspection prefix, presence, options); (R5) the loader's inference of default roots is guarded by exactly 'no schema definition, root unset, type exists', the reader half of FormatSchema omitting the schema block; (R7) the writer half: FormatSchema's root writes are guarded only by the root being set and by conditions common to all three. (R8) leading comment groups first; (R9) write primitives write the text they are given.", runC13)
+	register("C12", "Query formatting: (R1) every syntactic field the parser writes on an executable node (operations, variable definitions, fields, spreads, inline fragments, fragment definitions, arguments, directives, values, types) is read by the formatter's code (positions, comments and validation links excepted); (R2) string values are written only through a quoting function whose escape alphabet is a subset of what the lexer decodes — the Go-syntax strconv.Quote family (\\a \\v \\x \\U) is not, and raw or block-string emission of a value is not escape-complete; (R3) every branch of the formatter that decides whether a parsed piece is printed tests only presence (nil / empty), formatter options, built-in flags, the node's own kind, or loop bounds — a test on the content of a child (its kind, its name) drops or changes pieces of some documents; (R4) FormatSelection and Value.String are exhaustive over their kinds. (R6) a leading comment group is printed before any of the node's text; (R7) a write primitive hands the text it is given to the writer on every path (empty string and options excepted). (R2 also) the lexer's hex decoder accepts exactly the hexadecimal digits with their weights.", runC12)
+	register("C13", "Schema formatting: (R1) every syntactic field the parser writes on a type-system node, and every field ValidateSchemaDocument writes on ast.Schema, is read by the formatter (positions, comments, BuiltIn and derived relations excepted); (R2) the shared string writer of C12.R2 (default values, directive arguments); (R3) the text written between block-string delimiters passes a replacement of the delimiter by its escape; (R4) the guard discipline of C12.R3 over the schema printers (suppression only by BuiltIn flags, the introspection prefix, presence, options); (R5) the loader's inference of default roots is guarded by exactly 'no schema definition, root unset, type exists', the reader half of FormatSchema omitting the schema block; (R7) the writer half: FormatSchema's root writes are guarded only by the root being set and by conditions common to all three. (R8) leading comment groups first; (R9) write primitives write the text they are given. (R1 also) kind coverage: a Definition field the parser stores under kind K has a formatter read feasible under K. (R2 also) the hex decoder clause.", runC13)
 }
 
 // fieldReads: (struct, field) pairs read in the given functions.
@@ -568,6 +568,10 @@ func runC12(c *Ctx) {
 	r2 := c.Rule("R2", "string values are written with an escape alphabet the lexer decodes", 1)
 	stringWriterRule(c, r2)
 	lexerAcceptsHighCharacters(c, r2)
+	// the \\uXXXX escapes the quoting function writes are read back by the lexer's hex decoder (C03.R5)
+	if unhex := c.P.Func("lexer.unhex"); unhex != nil {
+		c03Unhex(c, r2, unhex)
+	}
 
 	r3 := c.Rule("R3", "print decisions test presence, options or built-in flags only (query printers)", 10)
 	guardDiscipline(c, r3, "query")
@@ -712,6 +716,10 @@ func runC13(c *Ctx) {
 	r2 := c.Rule("R2", "default values and directive arguments use the escape-safe string writer", 1)
 	stringWriterRule(c, r2)
 	lexerAcceptsHighCharacters(c, r2)
+	// the \\uXXXX escapes the quoting function writes are read back by the lexer's hex decoder (C03.R5)
+	if unhex := c.P.Func("lexer.unhex"); unhex != nil {
+		c03Unhex(c, r2, unhex)
+	}
 
 	r3 := c.Rule("R3", "text between block-string delimiters has the delimiter escaped", 1)
 	blockDelimiterRule(c, r3)
